@@ -40,6 +40,16 @@ def check_run(chk, r):
         if early:
             chk.fail(f"C11:train_{name}:update-before-warmup", "parameters changed in an iteration in which the documented warm-up / update condition does not hold",
                      {"case": case, "update_steps": upd, "not_allowed": early})
+        # ... and that includes the target networks handed to the routine (here: networks whose weights differ from the online ones,
+        # so that a copy or a soft update made during the warm-up is visible)
+        tgate = lc.gate_py(name, cfg["batch"], cfg["warm"], 1)      # the warm-up part of the condition: target updates have their own cadence
+        for tname in sorted(k for k in res["snaps"][0] if k.endswith("_target")) if res["snaps"] else []:
+            tch = [start + i for i in tr.changed_iterations(res, tname)]
+            tearly = [u for u in tch if not tgate(u)]
+            if tearly:
+                chk.fail(f"C11:train_{name}:target-update-before-warmup", f"the target network {tname} handed to the routine was overwritten in an iteration in which "
+                         "the documented warm-up / update condition does not hold", {"case": case, "target": tname, "target_update_steps": tch, "not_allowed": tearly})
+            chk.count("target_change_iterations_checked", len(tch))
         # correspondence with the skeleton
         m = r["model"]
         if (m["step"] if res["has_counter"] else None) != res["returned_step"] or sorted(m["updates"]) != upd or len(m["stored"]) != n:
@@ -337,13 +347,16 @@ def scheduler_cases(chk, rng, n):
         K = int(rng.integers(1, 4))
         budget = int(rng.integers(3, 30))
         envs = [ScriptEnv([(int(rng.integers(1, 5)), str(rng.choice(["term", "trunc"])))], env_id=k, discrete=2) for k in range(K)]
-        executed = {"n": 0, "calls": []}
+        executed = {"n": 0, "calls": [], "updates": []}
+        warm = int([0, 4, 9, 2, 15, 6][i % 6])
 
-        def train_st(env, total_timesteps, total_episodes=None, global_step=0, **kw):
+        def train_st(env, total_timesteps, total_episodes=None, global_step=0, learning_starts=0, **kw):
             step = global_step
             obs, _ = env.reset()
             eps = 0
             while step < total_timesteps:
+                if step >= learning_starts:       # the backbones' warm-up rule on the absolute step counter
+                    executed["updates"].append(step)
                 obs, r, te, tr_, _ = env.step(0)
                 step += 1
                 executed["n"] += 1
@@ -362,13 +375,17 @@ def scheduler_cases(chk, rng, n):
             def get_task(self, k):
                 return envs[int(k)]
         ts = TaskSet()
-        case = {"scheduler": "train_uts", "n_tasks": K, "budget": budget, "episode_lengths": [e.script[0][0] for e in envs]}
+        case = {"scheduler": "train_uts", "n_tasks": K, "budget": budget, "episode_lengths": [e.script[0][0] for e in envs], "exploring_starts": warm}
         chk.case(("uts", K, budget, i))
         chk.count("scheduler_cases")
         ok, out = chk.impl_call("C11:train_uts:raised", case, train_uts, ts, train_st, total_timesteps=budget, episodes_per_task=int([1, 2, 3][i % 3]), seed=i,
-                                exploring_starts=0, progress_bar=False)
+                                exploring_starts=warm, progress_bar=False)
         if ok:
             total_env = sum(len(e.step_events()) for e in envs)
+            if executed["updates"] != list(range(warm, total_env)):
+                chk.fail("C11:train_uts:update-before-warmup", "the backbone (which updates once its step counter has reached the learning_starts it is given) "
+                         "updated before the scheduler's exploring_starts steps had been executed, or not from then on",
+                         {"case": case, "update_steps": executed["updates"], "expected": [warm, total_env]})
             if total_env > budget or int(out.global_step) != total_env:
                 chk.fail("C11:train_uts:totals", "uniform task sampling executed more steps than the budget or its final counter differs from the steps executed",
                          {"case": case, "executed": total_env, "reported": int(out.global_step)})
@@ -380,10 +397,14 @@ def scheduler_cases(chk, rng, n):
                 return envs2[int(k)]
         rb = MultiTaskReplayBuffer(ReplayBuffer(10), K)
 
-        def train_st2(env, total_timesteps, total_episodes=None, global_step=0, **kw):
+        updates2 = []
+
+        def train_st2(env, total_timesteps, total_episodes=None, global_step=0, learning_starts=0, **kw):
             step, eps = global_step, 0
             env.reset()
             while step < total_timesteps:
+                if step >= learning_starts:
+                    updates2.append(step)
                 _, _, te, tr_, _ = env.step(0)
                 step += 1
                 if te or tr_:
@@ -393,12 +414,16 @@ def scheduler_cases(chk, rng, n):
                     env.reset()
             return Res(step)
         interval = int([1, 2, 3, 4][i % 4])     # the budget may run out after some, but not all, episodes of a scheduling interval
-        case2 = {"scheduler": "train_active_mt", "n_tasks": K, "budget": budget, "episode_lengths": [e.script[0][0] for e in envs2], "scheduling_interval": interval}
+        case2 = {"scheduler": "train_active_mt", "n_tasks": K, "budget": budget, "episode_lengths": [e.script[0][0] for e in envs2], "scheduling_interval": interval,
+                 "learning_starts": warm}
         ok, out = chk.impl_call("C11:train_active_mt:raised", case2, train_active_mt, TaskSet2(), train_st2, rb, 1.0, task_selector="Round Robin",
-                                total_timesteps=budget, scheduling_interval=interval, learning_starts=0, seed=i, progress_bar=False)
+                                total_timesteps=budget, scheduling_interval=interval, learning_starts=warm, seed=i, progress_bar=False)
         if ok:
             _, per_task = out
             total_env = sum(len(e.step_events()) for e in envs2)
+            if updates2 != list(range(warm, total_env)):
+                chk.fail("C11:train_active_mt:update-before-warmup", "the backbone updated before the scheduler's learning_starts steps had been executed, or not from then on",
+                         {"case": case2, "update_steps": updates2, "expected": [warm, total_env]})
             per_env = [len(e.step_events()) for e in envs2]
             if total_env > budget or int(np.sum(per_task)) != total_env or list(map(int, per_task)) != per_env:
                 chk.fail("C11:train_active_mt:totals", "per-task step totals do not sum to the steps actually executed (or exceed the budget)",
@@ -409,7 +434,7 @@ def main(chk):
     chk.proof_step()
     rng = np.random.default_rng(chk.seed)
     q = chk.tier == "quick"
-    recs = lc.collect(chk, rng, tr.ALL, 3 if q else 30, quick=False)
+    recs = lc.collect(chk, rng, tr.ALL, 3 if q else 30, quick=False, extra={"distinct_targets": True})
     for r in recs:
         check_run(chk, r)
     for r in lc.tab_collect(chk, rng, 2 if q else 20):
@@ -427,7 +452,7 @@ def main(chk):
     rollout_cases(chk, rng, 6 if q else 40)
     onpolicy_cases(chk, rng, 6 if q else 60)
     selector_cases(chk, rng, 12 if q else 200)
-    scheduler_cases(chk, rng, 6 if q else 100)
+    scheduler_cases(chk, rng, 24 if q else 150)
     smt_cases(chk, rng, 9 if q else 120)
     r0 = recs[0]
     chk.sample({"case": lc.case_of(r0), "model": {k: r0["model"][k] for k in ("step", "stop", "episodes", "updates", "resets")}})
